@@ -28,7 +28,9 @@ Definition check_gcase9 (c : gcase9) : verdict :=
       let lo := router_accept d sc gl (Some (gater_accept P g st 0)) in
       let hi := router_accept d sc gl (Some (gater_accept P g st (999999999 # 1000000000))) in
       (* monitors on the observation: the gater alone never yields AcceptNone; control is processed unless graylisted *)
-      if negb d && negb (sc <? gl)%Z && accept_eqb obs AcceptNone then VMonFail 0 98
+      (* RPCs of direct peers are always accepted in full, whatever the gater and the score say *)
+      if d && negb (accept_eqb obs AcceptAll) then VMonFail 0 97
+      else if negb d && negb (sc <? gl)%Z && accept_eqb obs AcceptNone then VMonFail 0 98
       else if det && negb (accept_eqb obs AcceptNone) && negb cdone then VMonFail 0 98
       else if det && accept_eqb obs AcceptControl && pdone then VMonFail 0 99
       else if det && accept_eqb obs AcceptNone && (cdone || pdone) then VMonFail 0 91
